@@ -182,6 +182,12 @@ def run_ops(pexpect, which, unicode_mode, logs, ops):
                 arg = o[2] if o[1] else o[2].encode('latin-1')
                 c.write(arg)
                 rets.append(None)
+            elif o[0] == 'setlogs':
+                # the application reassigns the log attributes in the middle of the session
+                a, r, s_ = o[1]
+                c.logfile = RecLog(0, sink) if a else None
+                c.logfile_read = RecLog(1, sink) if r else None
+                c.logfile_send = RecLog(2, sink) if s_ else None
             else:
                 if o[1] == 'control':
                     n = c.sendcontrol(o[2])
@@ -209,9 +215,13 @@ def coq_ops(ops, control_bytes):
             out.append('(Send %s %s)' % (cbool(o[1]), ctext(o[2])))
         elif o[0] == 'sendline':
             out.append('(SendLine %s %s)' % (cbool(o[1]), ctext(o[2])))
+        elif o[0] == 'setlogs':
+            out.append(('XLOGS', '(XLogs %s %s %s)' % tuple(cbool(x) for x in o[1])))
         else:
             out.append('(Control %s)' % cN(control_bytes[k]))
             k += 1
+    if any(isinstance(x, tuple) for x in out):
+        return clist([x[1] if isinstance(x, tuple) else '(XOp %s)' % x for x in out])
     return clist(out)
 
 
@@ -228,7 +238,7 @@ def encode_events(sink):
 CONTROL = {'c': 3, 'd': 4, 'g': 7, 'z': 26, '[': 27, '\\': 28, ']': 29, '^': 30, '_': 31, '?': 127, '@': 0}
 
 
-def gen_ops(rng, which, unicode_mode, reads=True, sends=True):
+def gen_ops(rng, which, unicode_mode, reads=True, sends=True, setlogs=False):
     ops = []
     text_pool = ['a', 'xy', 'é', '☃', '😀', 'b\n', '', 'ü€']
     stream = ''.join(rng.choice(text_pool) for _ in range(rng.randint(0, 8)))
@@ -270,6 +280,8 @@ def gen_ops(rng, which, unicode_mode, reads=True, sends=True):
                     t = ''.join(chr(rng.randrange(256)) for _ in range(rng.randint(0, 5)))
                     plan_item = (kind, False, t)
         plan.insert(rng.randint(0, len(plan)), plan_item)
+    if setlogs and plan:
+        plan.insert(rng.randint(0, len(plan)), ('setlogs', (rng.random() < 0.5, rng.random() < 0.5, rng.random() < 0.5)))
     # keep reads in stream order
     reads_in_order = [p for p in plan if p[0] == 'read']
     it = iter(reads_in_order)
